@@ -445,6 +445,9 @@ pub fn explain(case: &SynthCase, gate: &GateModule, mm: Mismatch) -> Outcome {
                     "const-wider-than-declared-type",
                     "signed-constant-not-sign-extended",
                     "signed-comparison-in-unsigned-context",
+                    "select-of-signed-variable-is-signed",
+                    "multi-bit-condition-tests-bit-0",
+                    "width-cast-ignored",
                     "ashr-in-unsigned-context",
                     "operand-truncated-to-target-width",
                     "signed-operand-in-unsigned-context",
